@@ -166,15 +166,22 @@ pub(crate) fn sort_requires(ctx: &Context, input_ast: Ast) -> Ast {
     };
 
     // Reconstruct the AST with sorted require groups
+    // Keep track of `-- stylua: ignore start` / `-- stylua: ignore end` regions as we walk through the statements
+    let mut ctx = *ctx;
     let mut stmts: Vec<StmtSemicolon> = Vec::new();
     for part in parts {
         match part {
             BlockPartition::RequiresGroup(_, mut list) => {
                 // If any of the block is ignored, then ignore the whole thing
-                if list
-                    .iter()
-                    .any(|(_, stmt)| !matches!(ctx.should_format_node(stmt), FormatNode::Normal))
-                {
+                let mut contains_ignored_stmt = false;
+                for (_, stmt) in list.iter() {
+                    ctx = ctx.check_toggle_formatting(stmt);
+                    if !matches!(ctx.should_format_node(stmt), FormatNode::Normal) {
+                        contains_ignored_stmt = true;
+                    }
+                }
+
+                if contains_ignored_stmt {
                     stmts.extend(list.iter().map(|x| x.1.clone()));
                     continue;
                 }
@@ -213,7 +220,12 @@ pub(crate) fn sort_requires(ctx: &Context, input_ast: Ast) -> Ast {
                 // Add to the list of stmts
                 stmts.extend(list.iter().map(|x| x.1.clone()))
             }
-            BlockPartition::Other(mut list) => stmts.append(&mut list),
+            BlockPartition::Other(mut list) => {
+                for stmt in list.iter() {
+                    ctx = ctx.check_toggle_formatting(stmt);
+                }
+                stmts.append(&mut list)
+            }
         };
     }
 
